@@ -86,12 +86,27 @@ func nontrivial(t []string, out string) bool {
 }
 
 func gen(g *hx.Gen) {
+	witnessCoinbase(g)
 	nh := g.N(10, 60)
 	steps := g.N(45, 120)
 	for i := 0; i < nh; i++ {
 		history(g, steps)
 	}
 	sim.Close()
+}
+
+// witnessCoinbase: below CheckRewardHeight (regnet 280000) checkTxsContext only logs a wrong
+// coinbase amount — a block whose coinbase pays 252 sela too much is connected. The model has the
+// height as a parameter (Params.checkRewardFrom); this history is the block-level tie (also cited by C11).
+func witnessCoinbase(g *hx.Gen) {
+	h := &regnet.HistGen{S: sim, R: g.R, Emit: g.Emit}
+	h.Start()
+	br := &regnet.Branch{}
+	b1 := h.Block(br, nil, regnet.MineOpts{Miner: 1})
+	h.Deliver(b1)
+	br = regnet.Extend(br, b1)
+	h.Deliver(h.Block(br, nil, regnet.MineOpts{Miner: 1, ExtraReward: 252}))
+	h.Observe(true, 4)
 }
 
 func history(g *hx.Gen, steps int) {
@@ -112,7 +127,7 @@ func history(g *hx.Gen, steps int) {
 		}
 		return rep
 	}
-	var spent []regnet.Coin   // coins the active chain has spent (for re-spend attempts)
+	var spent []regnet.Coin // coins the active chain has spent (for re-spend attempts)
 	var pooled []interfaces.Transaction
 	submit := func(tx interfaces.Transaction) string {
 		out := g.Emit("submit %s", sim.N.DescribeTx(tx))
